@@ -718,8 +718,8 @@ class Executor:
         self.emit(body_st, f"cover-loop#{k}", z3.BoolVal(False), line, expect="refutable")
         m0 = None
         if ls.decreases:
-            m0 = self.spec_value(ls.decreases, body_st, old=self.old)
-            self.emit(body_st, f"variant-bounded#{k}", m0.z >= 0, line)
+            m0 = self.measure(ls.decreases, body_st)
+            self.emit(body_st, f"variant-bounded#{k}", z3.And(*[m >= 0 for m in m0]), line)
         for (s2, kind, payload) in self.block(s.body, body_st):
             if kind in ("normal", "continue"):
                 step(s2)
@@ -727,18 +727,33 @@ class Executor:
                     s2.vars[g] = self.spec_value(gexpr, s2, old=self.old)
                 self.check_invs(s2, ls, "inv-pres", k, line=line)
                 if m0 is not None:
-                    m1 = self.spec_value(ls.decreases, s2, old=self.old)
-                    self.emit(s2, f"variant-decreases#{k}", m1.z < m0.z, line)
+                    m1 = self.measure(ls.decreases, s2)
+                    self.emit(s2, f"variant-decreases#{k}", self.lex_less(m1, m0), line)
             elif kind == "break":
                 out.append((s2, "normal", None))
             else:
                 out.append((s2, kind, payload))
+        if z3.is_false(z3.simplify(leave)):
+            return out  # `while True`: the loop is only left through return / break
         ex = h.copy()
         ex.pc.append(leave)
         if after_leave:
             after_leave(ex)
         out.append((ex, "normal", None))
         return out
+
+    def measure(self, src, st):
+        """integer measure or lexicographic tuple of integer measures"""
+        node = self.parse_clause(src)
+        parts = node.elts if isinstance(node, ast.Tuple) else [node]
+        ev = Eval(self, st, spec_mode=True, old_state=self.old)
+        return [ev.expr(p).z for p in parts]
+
+    def lex_less(self, a, b):
+        res = z3.BoolVal(False)
+        for x, y in reversed(list(zip(a, b))):
+            res = z3.Or(x < y, z3.And(x == y, res))
+        return res
 
     def s_For(self, s, st):
         from .forloops import exec_for
